@@ -1,0 +1,4 @@
+fn main() {
+    // Declare the verification cfg so that `unexpected_cfgs` stays quiet
+    println!("cargo::rustc-check-cfg=cfg(mla_verif)");
+}
